@@ -12,7 +12,8 @@ against a contract that implies the stub's.  This module decides that implicatio
         what the real function needs),
     (3) every `ensures` clause of S occurs among B's `ensures` clauses (A's callers learn at most what was proved),
     (4) every spec function / view mentioned (transitively) by the clauses involved has the same definition text in
-        both generated files.
+        both generated files - or the stub's unit leaves it `uninterp` with the same signature and no axiom of that unit
+        mentions it (a proof over an unconstrained symbol holds for every interpretation, the proving unit's included).
   Clause texts are compared after whitespace normalisation; conjunctions at the top of a clause are split.
 
 A stub that is not linked stays what it was: an assumed contract, listed as such in the evidence (with the clauses that
@@ -175,6 +176,48 @@ def _spec_defs(text, fns):
 _IDENT = re.compile(r'[A-Za-z_]\w*')
 
 
+def _axiom_text(text, fns):
+    """Text of everything a unit ASSUMES about its spec vocabulary: external_body / admit proof fns (axioms).  An uninterpreted
+    spec function that no axiom mentions is unconstrained: whatever the unit proves holds for EVERY interpretation of it."""
+    out = []
+    for f in fns:
+        attrs = ' '.join(f['attrs'])
+        h = f['header']
+        body = text[f['start']:f['end']]
+        if re.search(r'\bproof\s+fn\b', h) and ('external_body' in attrs or re.search(r'\badmit\s*\(', body) or re.search(r'\bassume\s*\(', body)):
+            out.append(body)
+        elif re.search(r'\baxiom\b', h):
+            out.append(body)
+    return set(_IDENT.findall(' '.join(out)))
+
+
+def _sig_of(defn):
+    """`fn name(params) -> ret` of a normalised spec fn definition (modifiers and body dropped)."""
+    mm = re.search(r'\bfn\b.*', defn)
+    if not mm:
+        return None
+    t = mm.group(0)
+    cut = len(t)
+    for stop in ('{', ';', 'decreases', 'recommends', 'when '):
+        k = t.find(stop)
+        if 0 <= k < cut:
+            cut = k
+    return t[:cut].strip()
+
+
+def _uninterp_compatible(n, a, b, stub_axioms):
+    """The stub's unit leaves `n` uninterpreted and assumes nothing about it: its proofs hold for every interpretation, in
+    particular for the definition the proving unit gives - provided both declare the same signature."""
+    short = n.rpartition('::')[2]
+    if short in stub_axioms:
+        return False
+    if not a or not all(re.search(r'\buninterp\b', x) for x in a):
+        return False
+    sa = set(_sig_of(x) for x in a)
+    sb = set(_sig_of(x) for x in b)
+    return None not in sa and len(sa) == 1 and sa == sb
+
+
 def _names_used(texts, sig, *defsets):
     """Keys of spec definitions a clause text can refer to: free spec fns by name, methods `.m(` as every `T::m` /
     `<T as Tr>::m`, and `@` / `.view()` as the View impls of every type named in the signature or in the clause."""
@@ -220,7 +263,7 @@ def analyse_unit(name):
     text, _spans = u.render()
     fns, _m = scan_fns(text)
     verified_ids = set(f['id'] for f in u.functions)
-    info = {'unit': name, 'stubs': {}, 'verified': {}, 'defs': _spec_defs(text, fns)}
+    info = {'unit': name, 'stubs': {}, 'verified': {}, 'defs': _spec_defs(text, fns), 'axioms': _axiom_text(text, fns)}
     for f in fns:
         attrs = ' '.join(f['attrs'])
         q = f['qual_short']
@@ -269,7 +312,7 @@ def link(units):
                 for (pu, pc) in provers[q]:
                     if pu == u:
                         continue
-                    r = _compare(s, pc, inf['defs'], infos[pu]['defs'])
+                    r = _compare(s, pc, inf['defs'], infos[pu]['defs'], inf['axioms'])
                     r['proved_in'] = pu
                     if best is None or len(r['unlinked_ensures']) + len(r['missing_requires']) + len(r['def_mismatch']) < \
                             len(best['unlinked_ensures']) + len(best['missing_requires']) + len(best['def_mismatch']):
@@ -281,7 +324,7 @@ def link(units):
     return report, errors
 
 
-def _compare(stub, proved, sdefs, pdefs):
+def _compare(stub, proved, sdefs, pdefs, stub_axioms=frozenset()):
     r = {'linked_ensures': [], 'unlinked_ensures': [], 'missing_requires': [], 'def_mismatch': [], 'param_mismatch': False}
     if stub['params'] != proved['params']:
         r['param_mismatch'] = True
@@ -299,7 +342,7 @@ def _compare(stub, proved, sdefs, pdefs):
         if a is None or b is None:
             # defined on one side only: a clause that mentions it cannot be textually shared, so it is not among the linked ones
             continue
-        if a != b:
+        if a != b and not _uninterp_compatible(n, a, b, stub_axioms):
             r['def_mismatch'].append(n)
     r['status'] = 'linked' if not (r['unlinked_ensures'] or r['missing_requires'] or r['def_mismatch'] or r['param_mismatch']) else \
         ('partly linked' if r['linked_ensures'] and not (r['def_mismatch'] or r['param_mismatch']) else 'assumed')
